@@ -9,7 +9,7 @@ pristine forked process, the label recomputed by the independent WCAG/CSS-colour
 import copy
 import os
 
-from . import apiops, base, gen, refs
+from . import apiops, base, gen, refs, sched
 from .apiops import dec, enc
 from .base import stream
 
@@ -21,21 +21,25 @@ RUN_TIMEOUT = 300.0
 SELFTEST_RUNS = 2
 RULE = ("one run = one generated list of 0-12 entries (2- and 3-element forms mixed, every colour spelling incl. translucent, tuples/lists, "
         "unparsable 'poison' text and/or background at seeded positions, duplicates) x mode x very_readable, evaluated through a history of "
-        "bulk calls in one process (original, permuted, split in two, poison inserted at positions, doubled, repeated) and compared entry by "
+        "bulk calls in one process (original, permuted, split in two, poison inserted at positions, doubled, with save_report, after calls with other "
+        "settings, repeated; in a quarter of the runs also the list and its permutation evaluated CONCURRENTLY by two threads under the seeded "
+        "baton-passing scheduler, pre-emption at line boundaries inside cm_colors) and compared entry by "
         "entry with the single-pair API run in a pristine forked process plus an independent WCAG label. Non-trivial = at least one entry "
         "whose colour was changed and at least one poison entry or derived call; distinct = distinct event-log digest.")
 ASSUMPTIONS = [
     "the colour reference for an entry IS the single-pair API (as the property states), evaluated under the empty history in a forked pristine process",
     "the label reference is ref_wcag + tinycss2.color3 on the returned colour; entries whose reference ratio is within 1e-9 of a threshold are not judged on the label",
-    "injected 'faults' here are unparsable entries, not I/O faults",
+    "injected 'faults' here are unparsable entries, a report directory on another file system, and pre-emption of one caller by another; not I/O errors",
 ]
 PROBES = ["lists", "entries", "entries_changed", "poison_entries", "poison_text", "poison_bg", "three_element_entries", "large_true",
           "empty_list", "duplicates", "calls", "label_checked", "label_skipped_alpha_bg", "mode0", "mode1", "mode2", "very_readable",
-          "status_very_readable", "status_readable", "status_not_readable", "list_entries_form", "alias_family_entries", "same_translucent_text_on_several_backgrounds", "held_results_rechecked", "history_calls_with_other_settings", "exotic_background_entries", "report_variant_tmpdir_on_other_filesystem"]
+          "status_very_readable", "status_readable", "status_not_readable", "list_entries_form", "alias_family_entries", "same_translucent_text_on_several_backgrounds", "held_results_rechecked", "history_calls_with_other_settings", "exotic_background_entries", "concurrent_call_pairs", "context_switches", "report_variant_tmpdir_on_other_filesystem"]
 
 
-def _colour(rng, rgb, role):
+def _colour(rng, rgb, role, notation=None):
     m = rng.random()
+    if notation and role == "t" and rng.random() < 0.7:
+        return enc(gen.spell(rng, rgb, (notation,))[0]), False
     if role == "t" and m < 0.15:
         return enc(gen.spell_alpha(rng, rgb, rng.choice((0.0, 0.25, 0.5, 0.999, 1.0, round(rng.random(), 3))))[0]), True
     kinds = gen.CSS_SPELLINGS + gen.API_ONLY_SPELLINGS
@@ -56,13 +60,13 @@ def _poison(rng):
     return enc(rng.choice(gen.POISON_OBJ))
 
 
-def _entry(rng, vr, poison_p):
+def _entry(rng, vr, poison_p, notation=None):
     bg = gen.rand_rgb(rng)
     large = rng.choice((None, None, None, False, True, True, True, 1, 0))  # (a flag that is truthy/falsy but not a bool: 1, 0)
     thr = refs.target_ratio(premium=vr, large=bool(large))
     band = rng.choice(("pass", "pass-hair", "fix", "fix", "fix-hair", "mid", "hard", "same", "random"))
     trgb, _ = gen.pick_text(rng, bg, thr, band)
-    t, alpha = _colour(rng, trgb, "t")
+    t, alpha = _colour(rng, trgb, "t", notation)
     b, bx = _colour(rng, bg, "b")
     e = {"t": t, "b": b, "large": large, "bg_rgb": list(bg), "alpha": alpha}
     if bx == "exotic":
@@ -85,7 +89,10 @@ def generate(rseed, tier, idx):
     n = g.choice((0, 1, 2, 3, 3, 4, 5, 6, 8, 12))
     big = g.random() < 0.03
     poison_p = g.choice((0.0, 0.15, 0.3))
-    L = [_entry(g, vr, poison_p) for _ in range(n)]
+    # a list whose texts are mostly written in ONE notation (hsl() favoured): whatever is special about formatting a result
+    # back into that notation is met by most entries of the run
+    notation = g.choice((None, None, None, None, "hsl", "hsl", "rgbpct", "name"))
+    L = [_entry(g, vr, poison_p, notation) for _ in range(n)]
     if big:
         # a long list (100+ entries, mostly already readable so it stays cheap) around the generated ones
         k0 = g.randrange(1 << 20)
@@ -134,6 +141,7 @@ def generate(rseed, tier, idx):
               for _ in range(e.choice((0, 1, 1, 2)))]
     renv = {"tmp_other_fs": e.random() < 0.3, "cwd": e.choice(("cwd", "cwd", "work [v2]", "a b/c"))}
     return {"prop": ID, "mode": mode, "vr": vr, "L": L, "perm": perm, "split": g.randint(0, n), "poison": pe, "others": others, "report_env": renv,
+            "threads": ({"seed": e.randrange(1 << 62), "mean_gap": e.choice((50, 500, 5000)), "schedule": None} if idx % 4 == 2 and n <= 12 else None),
             "positions": positions, "as": g.choice(("tuple", "tuple", "list")), "container": g.choice(("list", "list", "list", "tuple", "iter", "gen")), "derived": True}
 
 
@@ -245,9 +253,11 @@ def execute(trace):
     failed_in_base = set()
     hold_ctx = apiops.Ctx()
 
-    def call(entries, tag, kind_for_mismatch, save=False):
+    def call(entries, tag, kind_for_mismatch, save=False, given=None):
         op = {"op": "bulk", "pairs": _pairs(entries), "mode": mode, "vr": vr, "as": trace["as"], "container": trace.get("container", "list"), "hold": True}
-        if save:
+        if given is not None:
+            r = given  # executed elsewhere (concurrently with another call); judged here like any other call
+        elif save:
             # the same call with save_report=True (report and its console line go to a sandbox): same results,
             # also when the temp directory is on another file system than the working directory
             op["save"] = True
@@ -273,7 +283,7 @@ def execute(trace):
         else:
             r = apiops.run_op(op, hold_ctx)
         bump("calls")
-        events.append((tag, r))
+        events.append((tag, {k: v for k, v in r.items() if k in ("ret", "exc")}))
         if "exc" in r:
             if any(exp_of(e)["kind"] == "oracle-raised" for e in entries):
                 return None
@@ -327,6 +337,7 @@ def execute(trace):
     for o in trace.get("others") or ():
         if o["when"] == "first" and L:
             history_call(o)
+    sc_used = []
     r0 = call(L, "base", None)
     derived = False
     if trace.get("derived") and L:
@@ -338,6 +349,37 @@ def execute(trace):
         for pos in trace["positions"]:
             call(L[:pos] + [trace["poison"]] + L[pos:], "poison@%d" % pos, "insertion")
         call(L + L, "doubled", "repetition")
+        if trace.get("threads") and len(L) >= 1:
+            # two callers at once: the list and its permutation evaluated by two threads of this process under the seeded
+            # baton-passing scheduler (pre-emption at line boundaries inside cm_colors); each must still get its own map
+            import random as _random
+
+            th = trace["threads"]
+            lists = [L, [L[i] for i in trace["perm"]]]
+            ops2 = [{"op": "bulk", "pairs": _pairs(x), "mode": mode, "vr": vr, "as": trace["as"], "container": "list"} for x in lists]
+            outs = [None, None]
+
+            def mk(i):
+                def fn():
+                    outs[i] = apiops.run_op(ops2[i], apiops.Ctx())
+                return fn
+
+            if th.get("schedule") is not None:
+                sc = sched.Scheduler(2, schedule=th["schedule"], hot=None)
+            else:
+                sc = sched.Scheduler(2, rng=_random.Random("%d|sched" % th["seed"]), mean_gap=th["mean_gap"], p_hot=0.0, hot=None)
+            try:
+                sc.run([mk(0), mk(1)])
+            except sched.StepCap:
+                raise base.HarnessError("step cap exceeded")
+            if sc.errors:
+                raise base.HarnessError("client thread error: %r" % (sc.errors,))
+            bump("concurrent_call_pairs")
+            bump("context_switches", sum(1 for d in sc.decisions if d[3] not in ("start", "finish")))
+            events.append(("concurrent", [(d[1], d[2], d[3]) for d in sc.decisions][:3000]))
+            sc_used.append(sc)
+            for i in (0, 1):
+                call(lists[i], "concurrent-%d" % i, "concurrency", given=outs[i])
         call(L, "with-report", "report-variant", save=True)
         for o in trace.get("others") or ():
             if o["when"] == "middle":
@@ -356,8 +398,12 @@ def execute(trace):
     if len(set(ids)) < len(ids):
         V("repetition", note="two calls returned the very same list object")
     nontrivial = changed_any and (derived or any(e.get("poison") for e in L))
+    explicit = None
+    if vio and sc_used and trace["threads"].get("schedule") is None:
+        explicit = copy.deepcopy(trace)
+        explicit["threads"]["schedule"] = sc_used[0].explicit_schedule()  # replay and minimisation are PRNG-free
     return {"violations": vio, "digest": base.digest(events), "nontrivial": nontrivial, "stats": stats,
-            "steps": stats.get("calls", 0), "skipped": skipped}
+            "steps": stats.get("calls", 0), "skipped": skipped, "explicit": explicit}
 
 
 # ---------------------------------------------------------------------------
@@ -368,6 +414,10 @@ def shrink(trace):
     if trace.get("derived"):
         t = copy.deepcopy(trace)
         t["derived"] = False
+        yield t
+    if trace.get("threads"):
+        t = copy.deepcopy(trace)
+        t["threads"] = None
         yield t
     for k in range(len(trace.get("others") or ())):
         t = copy.deepcopy(trace)
